@@ -143,6 +143,24 @@ func (sp *SyncCommitteePool) Reset(slot common.Slot) {
 		sp.prevContribs = sp.currentContribs
 		sp.currentContribs = sp.nextContribs
 		sp.nextContribs = make(SyncCommitteeContributions)
+	} else if sp.currentSlot == slot+2 {
+		// moved back two slots: the old previous slot is the new next slot, keep its buffers
+		sp.nextMsgs = sp.prevMsgs
+		sp.currentMsgs = make(SyncCommitteeMessages, sp.spec.SYNC_COMMITTEE_SIZE)
+		sp.prevMsgs = make(SyncCommitteeMessages, sp.spec.SYNC_COMMITTEE_SIZE)
+
+		sp.nextContribs = sp.prevContribs
+		sp.currentContribs = make(SyncCommitteeContributions)
+		sp.prevContribs = make(SyncCommitteeContributions)
+	} else if sp.currentSlot+2 == slot {
+		// one Reset was skipped: the old next slot is the new previous slot, keep its buffers
+		sp.prevMsgs = sp.nextMsgs
+		sp.currentMsgs = make(SyncCommitteeMessages, sp.spec.SYNC_COMMITTEE_SIZE)
+		sp.nextMsgs = make(SyncCommitteeMessages, sp.spec.SYNC_COMMITTEE_SIZE)
+
+		sp.prevContribs = sp.nextContribs
+		sp.currentContribs = make(SyncCommitteeContributions)
+		sp.nextContribs = make(SyncCommitteeContributions)
 	} else {
 		sp.prevMsgs = make(SyncCommitteeMessages, sp.spec.SYNC_COMMITTEE_SIZE)
 		sp.currentMsgs = make(SyncCommitteeMessages, sp.spec.SYNC_COMMITTEE_SIZE)
